@@ -25,8 +25,8 @@ pub fn exec(toks: &[&str]) -> String {
     let (Some(spki), Some(msg)) = (unhex(toks[bar + 1]), unhex(toks[bar + 2])) else { return "bad-op".into() };
     let Ok(key) = PublicKey::decode(Bytes::from(spki)) else { return "bad-op".into() };
     match toks[0] {
-        "msg" => {
-            let main = match SignedMessage::decode(Bytes::from(msg.clone()), true) {
+        "msg" | "msgr" => {
+            let main = match SignedMessage::decode(Bytes::from(msg.clone()), toks[0] == "msg") {
                 Ok(m) => m.validate_at(&key, c01::time(when)).is_ok(),
                 Err(_) => false,
             };
@@ -45,6 +45,19 @@ pub fn exec(toks: &[&str]) -> String {
 }
 
 //------------ generation ----------------------------------------------------
+
+/// the same message through the relaxed entry point (the mode `ProvisioningCms` / `PublicationCms` decode in): as it
+/// is, and re-encoded with BER's liberties outside the signed octets - the verdict must be the one of the facts
+fn relaxed_twin(ctx: &mut Ctx, rng: &mut Rng, when: i64, facts: &str, spki: &[u8], msg: &[u8]) {
+    if rng.chance(1, 3) {
+        ctx.case(&format!("msgr {} {} | {} {}", when, facts, hex(spki), hex(msg)));
+    } else if rng.chance(1, 2) {
+        let rate = *rng.pick(&[1u64, 4, 16]);
+        if let Some(b) = crate::berd::ber_encode_safe(msg, rng, rate) {
+            ctx.case(&format!("msgr {} {} | {} {}", when, facts, hex(spki), hex(&b)));
+        }
+    }
+}
 
 #[derive(Clone)]
 pub struct IdSpec {
@@ -118,6 +131,7 @@ pub fn generate(ctx: &mut Ctx) {
             // facts for a library-made message: the model is told what create() promises
             let f = format!("lib:{}:{}:{}:{}:{}", hex(&data), nb, na, hex(&pool.keys[issuer].ski), hex(&pool.keys[peer].ski));
             ctx.case(&format!("msg {} {} | {} {}", when, f, hex(&pool.keys[peer].spki), hex(&der_m)));
+            relaxed_twin(ctx, &mut rng, when, &f, &pool.keys[peer].spki, &der_m);
         }
     }
     // --- foreign messages
@@ -244,5 +258,6 @@ pub fn generate(ctx: &mut Ctx) {
             "1", if crl_signer == peer { "1" } else { "0" }, crl_this, crl_next, opt_hex(&crl_aki),
             if revoked.is_empty() { "-".to_string() } else { revoked.iter().map(|s| hex(s)).collect::<Vec<_>>().join(";") });
         ctx.case(&format!("msg {} {} | {} {}", when, facts, hex(&pool.keys[peer].spki), hex(&msg)));
+        relaxed_twin(ctx, &mut rng, when, &facts, &pool.keys[peer].spki, &msg);
     }
 }
